@@ -41,6 +41,28 @@ CLAIMED = {
         "(size, spacing, center, origin, direction, align_corners, cube_extent), float32 tolerance policy",
         "DESIGN.md 3 C03",
     ),
+    "C06": (
+        "spec/Transform.tla, spec/MC_Transform.tla (on GridDefs, Rotations0)",
+        "TLA+ meaning function of every linear model and composite as an exact affine map of the cube, its world-space conjugate W and "
+        "its expression in any other grid's coordinates; TLC checks the consistency laws and enumerates model x parameter x grid cases; "
+        "each case is evaluated through every view of the real object and all views must show the same W",
+        "18 model variants (elementary, rigid/similarity/affine/full-affine, generic configurable, explicit sequential, multi-level) on "
+        "oriented anisotropic grids with either align_corners; views: tensor/matrix, call/forward, points() in world and other-grid "
+        "coordinates, PointSetTransformer, disp()/flow() on own and other grid, ImageTransformer on two targets, default identity",
+        "trusted: TLC, GridDefs (bound by C01), Rotations0 (bound by C08), harness/dv/tform.py; non-rigid models are bound on their exact "
+        "families by C09/C11/C14",
+        "DESIGN.md 3 C06",
+    ),
+    "C07": (
+        "spec/Transform.tla, spec/TransformState.tla",
+        "exact inverse map M^-1 from Transform.tla for every linear model/composite; the real inverse (link x update_buffers x .inv x holder) "
+        "must have that matrix, both round trips must be the identity, also after in-place and replacing parameter changes; velocity-field "
+        "models through the TransformState histories that create inverses (InverseStaysInverse checked by TLC, histories replayed)",
+        "all invertible linear classes and composites on the C06 lattice; SVF/SVFFD histories with inverse(link, update_buffers) up to the "
+        "bound plus simulated longer ones",
+        "trusted: as C06/C09; the accuracy clause for smooth non-affine velocity fields is not decided (DESIGN section 4)",
+        "DESIGN.md 3 C07",
+    ),
     "C08": (
         "spec/HForms.tla, spec/MC_HForms.tla, spec/Rotations.tla, spec/MC_Rotations.tla",
         "TLA+ models of the three operand forms of homogeneous transforms (composition = 'apply b then a', result form, batch "
